@@ -165,7 +165,7 @@ Proof.
   apply bind_congr; [reflexivity|]. intros [] Htc.
   apply bind_congr; [reflexivity|]. intros [] Hoc.
   apply bind_congr.
-  { destruct right; rewrite set_of_list_nodup; [destruct (nodupb tc)|destruct (nodupb oc)]; reflexivity. }
+  { destruct right; rewrite !set_of_list_nodup; [destruct (nodupb tc); [destruct (nodupb oc)|]|destruct (nodupb oc)]; reflexivity. }
   intros [] _.
   destruct (Nat.eqb (length tc) (length oc)) eqn:El; cbn [negb bind]; [|reflexivity].
   apply Nat.eqb_eq in El.
